@@ -186,7 +186,7 @@ pub fn episode(sim: &Sim, cfg: &StreamCfg, tag: Tag, out: &mut Vec<Item>) -> Res
         sim.count("abandoned_giant_announcement");
         return Ok(());
     }
-    if cfg.flood_pptt > 0 && cfg.fault_pct > 0 && sim.draw(10_000) < cfg.flood_pptt {
+    if cfg.flood_pptt > 0 && cfg.fault_pct > 0 && sim.draw(10_000) >= 10_000 - cfg.flood_pptt.min(10_000) {
         let n = 66_000 + sim.draw(5_000);
         let addr = cfg.addrs[0];
         for i in 0..n {
@@ -1176,6 +1176,13 @@ pub fn run_c19(sim: &Sim, prop: &str, tier: Tier) -> Outcome {
         back.borrow_mut().tx = t;
         sim.probe("receiver_object_also_sends");
     }
+    // What the *send* path of the link object keeps (an encode buffer reused across sends, a
+    // copy of the packet sent last) is not receiver memory. Growth of the object during send
+    // calls is set aside, up to a bound proportional to the largest packet sent so far; beyond
+    // that bound it counts as receiver memory again (a send that hoards received input grows
+    // with the traffic, not with what was sent).
+    let mut tx_growth: isize = 0;
+    let mut tx_max_wire: isize = 0;
     let mut announced: u32 = 0; // A: largest announcement taken since the last boundary
     let mut polls = 0usize;
     let soft_budget = 4 * n_frames + 300;
@@ -1189,11 +1196,15 @@ pub fn run_c19(sim: &Sim, prop: &str, tier: Tier) -> Outcome {
                 device_address: 0x0e0f,
                 data: fill_pattern(0, polls as u32, sim.pick(&[4usize, 20, 60])),
             };
+            let live_before_send = alloc::sut_live();
             match crate::scenario::send(sim, "rx", &mut rx, &p) {
                 Err(Crash::Panic(m)) => return Outcome::Foreign("C14.exact", format!("sender panicked: {}", m)),
                 Err(Crash::Blocked) => return Outcome::Foreign("C14.term", "sender blocked".to_string()),
                 _ => {}
             }
+            tx_growth += (alloc::sut_live() - live_before_send).max(0);
+            let n_fr = if p.data.len() <= 8 { 1 } else { (p.data.len() - 1) / 7 + 1 };
+            tx_max_wire = tx_max_wire.max(16 * n_fr as isize);
             // what it wrote is of no interest here
             let mut b = back.borrow_mut();
             b.bytes.clear();
@@ -1249,6 +1260,8 @@ pub fn run_c19(sim: &Sim, prop: &str, tier: Tier) -> Outcome {
         let frames_in_poll = out.frames_after - out.frames_before;
         drop(out); // the returned packet / error is released before measuring
         let live = alloc::sut_live() - base;
+        // (fresh level of this object including what its send path may keep, see above)
+        let fresh = fresh + tx_growth.min(64 + 4 * tx_max_wire);
 
         // C19.frame: no single allocation beyond what a one-byte length can announce,
         // unless explained by the packet in flight or the payload handed out
